@@ -111,7 +111,7 @@ Definition cmd_gs_effect (time dev ch tag : Z) (args : list Z) : res (list event
     else Ok []
   else if tag =? 21 then
     let sys_ch := as_u8 (if ch =? 9 then 0 else if ch <=? 9 then ch + 1 else ch) in
-    Ok [gs_dt1 time dev [64; sys_ch; 21; as_u8 (nth 0 args 0)]]
+    Ok [gs_dt1 time dev [64; 16 + sys_ch; 21; as_u8 (nth 0 args 0)]]
   else if (48 <=? tag) && (tag <=? 64) then
     match args with
     | a0 :: _ => Ok [gs_dt1 time dev [64; 1; as_u8 (Z.rem tag 256); as_u8 a0]]
